@@ -507,12 +507,12 @@ func (c *VC) readVar(st *State, obj types.Object) *Term {
 	}
 	if fr.boxed[obj] {
 		_, h := c.ptrHeap(st, c.sortOf(obj.Type()))
-		return mkSelect(h, v)
+		return c.sel(h, v)
 	}
 	if fr.arrBoxed[obj] {
 		at := obj.Type().Underlying().(*types.Array)
 		_, h := c.sliceHeap(st, c.sortOf(at.Elem()))
-		return mkSelect(h, mkField(v, "sl_base"))
+		return c.sel(h, mkField(v, "sl_base"))
 	}
 	return v
 }
@@ -965,7 +965,7 @@ func (c *VC) execRange(st *State, s *ast.RangeStmt, label string) {
 		x := c.eval(st, s.X)
 		n = c.idxLit(u.Len())
 		elemT = u.Elem()
-		elem = func(b *State, i *Term) *Term { return mkSelect(x, i) }
+		elem = func(b *State, i *Term) *Term { return c.sel(x, i) }
 	case *types.Pointer:
 		if at, ok := u.Elem().Underlying().(*types.Array); ok {
 			p := c.eval(st, s.X)
@@ -973,7 +973,7 @@ func (c *VC) execRange(st *State, s *ast.RangeStmt, label string) {
 			elemT = at.Elem()
 			elem = func(b *State, i *Term) *Term {
 				_, h := c.ptrHeap(b, c.sortOf(u.Elem()))
-				return mkSelect(mkSelect(h, p), i)
+				return c.sel(c.sel(h, p), i)
 			}
 		}
 	case *types.Basic:
@@ -1143,7 +1143,7 @@ func (c *VC) execRangeString(st *State, s *ast.RangeStmt, tg *target, ld *LoopDi
 			r := c.fresh("rune", c.sortOf(rt))
 			width = c.fresh("rwidth", c.idxSort())
 			bt := types.Typ[types.Uint8]
-			b0 := mkSelect(mkField(x, "st_arr"), c.binop(token.ADD, mkField(x, "st_off"), i, it))
+			b0 := c.sel(mkField(x, "st_arr"), c.binop(token.ADD, mkField(x, "st_off"), i, it))
 			ascii := c.cmp(token.LSS, b0, c.numLit(bigInt(0x80), bt), bt)
 			c.addFact(b.pc, mkAnd(
 				c.cmp(token.LEQ, c.idxLit(1), width, it), c.cmp(token.LEQ, width, c.idxLit(4), it),
